@@ -251,8 +251,12 @@ func Qualifier(name, query string) (Filter, error) {
 	}
 
 	return func(f Feature) bool {
-		if vv := f.Props.Get(name); vv != nil {
-			for _, v := range vv {
+		// A table may hold several entries with the same qualifier name.
+		for _, vv := range f.Props {
+			if len(vv) == 0 || vv[0] != name {
+				continue
+			}
+			for _, v := range vv[1:] {
 				if re.MatchString(v) {
 					return true
 				}
